@@ -640,6 +640,11 @@ func instrument(p *pkgInfo, f *fileInfo) []byte {
 				args += ", " + strings.Join(cases, ", ")
 			}
 			repl(x.Select, x.Select+token.Pos(len("select")), fmt.Sprintf("switch %s := verifrt.Select(%s); %s.I", sel, args, sel))
+			if !hasDefault {
+				// a select without default is a terminating statement when all its cases are; a switch needs a
+				// default clause for that (verifrt.Select never returns an index outside the cases here)
+				ins(x.Body.Rbrace, "default: panic(\"verifrt: select returned no case\")\n")
+			}
 		}
 		return true
 	})
